@@ -618,7 +618,7 @@ fn generate(rng: &mut Rng, n: u64, tier: &str, emit: &mut dyn FnMut(Vec<String>)
     for s in all_strings(&alpha, max) {
         emit(e("bucket-name", vec![hex(s.as_bytes())]));
         emit(e("path-style", vec![hex(format!("/{s}").as_bytes())]));
-        if s.len() < max && !s.starts_with('/') {
+        if !s.starts_with('/') {
             emit(e("path-style", vec![hex(s.as_bytes())]));
         }
     }
